@@ -129,6 +129,10 @@ fn streams() -> Vec<StreamDef> {
     let parts: Vec<(Option<MsgSpec>, Vec<u8>)> = (0..40).map(|i| (Some(shape(&se, (i % 32) as u8, 2000 + i * 13, i % 3, i as u8, i)), if i % 5 == 1 { garbage(1 + i % 9, 5) } else { vec![] })).collect();
     let (bytes, built) = cat(&parts);
     v.push(StreamDef { name: "serial_forty", bytes, built, lookahead_case: false });
+    // S6b serial, minimal messages (8..18 bytes): every suffix shorter than a minimal storage message must still parse
+    let parts: Vec<(Option<MsgSpec>, Vec<u8>)> = (0..10).map(|i| (Some(shape(&se, [0u8, WTMS, 0, WEID, 0, WSID, 0, 0, WTMS, 0][i], [0usize, 1, 2, 0, 3, 0, 1, 0, 2, 0][i], i % 3, i as u8, i)), vec![])).collect();
+    let (bytes, built) = cat(&parts);
+    v.push(StreamDef { name: "serial_minimal_msgs", bytes, built, lookahead_case: false });
     // S7 100 KiB garbage then messages
     let (bytes, built) = cat(&[(None, garbage(100_000, 6)), (Some(shape(&st, 31, 5, 0, 1, 0)), vec![]), (Some(shape(&st, UEH, 2, 1, 2, 1)), vec![])]);
     v.push(StreamDef { name: "long_garbage_first", bytes, built, lookahead_case: false });
@@ -645,7 +649,7 @@ impl Prop for C04 {
         Meta {
             id: "C04",
             level: "model_checking",
-            rule: "(1) chunking: 10 byte streams (incl. maximum-size messages, embedded frame markers, 3 x capacity totals, serial framing, long garbage) x capacities {low+4096, low+4097, 512 KiB} (low = DLT_MIN_PARSER_LOOKAHEAD_SIZE, what the production call sites pass) x read-size schedules of a scripted source (constant k for 12-16 values incl. 1 and 65550..65556, every single deviation 'call #i returns 1 / half / asked-1 bytes' for i < 12, every pair of deviations, 3 cyclic patterns): DltMessageIterator over LowMarkBufReader must yield the same messages and counters as over the whole slice; every whole-message suffix parses to the tail. (2) reader alone: explicit-state BFS by re-execution over 19 operations (fill_buf, 4 consumes, 4 reads, 10 seeks with state-relative targets) from the initial state, per (capacity, low mark, data length, source schedule) configuration, states deduplicated on (pos, abs_pos, cap, empty_last_read, source call phase, model cursor, hash of the buffered bytes), plus an undeduplicated depth-4/5 tree. Oracle = byte vector + one cursor: bytes handed out / buffered equal the source's at the cursor, fill_buf returns >= min(low mark, remaining) and is empty only at the true end, seeks to targets inside the currently buffered range succeed, successful seeks re-deliver the source's bytes.".into(),
+            rule: "(1) chunking: 11 byte streams (incl. serial framing with minimal 8..18 byte messages, maximum-size messages, embedded frame markers, 3 x capacity totals, serial framing, long garbage) x capacities {low+4096, low+4097, 512 KiB} (low = DLT_MIN_PARSER_LOOKAHEAD_SIZE, what the production call sites pass) x read-size schedules of a scripted source (constant k for 12-16 values incl. 1 and 65550..65556, every single deviation 'call #i returns 1 / half / asked-1 bytes' for i < 12, every pair of deviations, 3 cyclic patterns): DltMessageIterator over LowMarkBufReader must yield the same messages and counters as over the whole slice; every whole-message suffix parses to the tail. (2) reader alone: explicit-state BFS by re-execution over 19 operations (fill_buf, 4 consumes, 4 reads, 10 seeks with state-relative targets) from the initial state, per (capacity, low mark, data length, source schedule) configuration, states deduplicated on (pos, abs_pos, cap, empty_last_read, source call phase, model cursor, hash of the buffered bytes), plus an undeduplicated depth-4/5 tree. Oracle = byte vector + one cursor: bytes handed out / buffered equal the source's at the cursor, fill_buf returns >= min(low mark, remaining) and is empty only at the true end, seeks to targets inside the currently buffered range succeed, successful seeks re-deliver the source's bytes.".into(),
             assumptions: vec!["fingerprint argument: the reader's control flow depends only on its numeric fields and the source state; buffered content is hashed in; the undeduplicated tree cross-checks small depths".into(),
                 "consume(n) is only called with n <= buffered bytes (BufRead contract)".into()],
             budget_s: (120, 1200),
